@@ -61,7 +61,7 @@ Lemma deliver_inv r buf p ev r' rest :
         finish P r (Aead k iv') (be_decode aad) pt ev = Ok (p, ev, r')
   end.
 Proof.
-  intros H. unfold read_message, read_classic in H. cbv zeta in H.
+  intros H. unfold read_message, read_body, read_classic in H. cbv zeta in H.
   unfold rbind, rtake, rlift, rfail, rret in H.
   destruct (p_mode r) as [|c k|c k|k iv] eqn:Em.
   - exact I.
@@ -101,7 +101,7 @@ Lemma deliver_inv_etm r buf p ev r' rest c k :
     constant_time_bytes_eq (mac_tag P k (p_msz r) (mac_input (p_seq r) size packet)) tag = true /\
     finish P r (Etm (snd (c_dec P c packet)) k) size (fst (c_dec P c packet)) ev = Ok (p, ev, r').
 Proof.
-  intros Em Hb H. unfold read_message in H. cbv zeta in H.
+  intros Em Hb H. unfold read_message, read_body in H. cbv zeta in H.
   unfold rbind, rtake, rlift, rfail, rret in H. rewrite Em in H.
   repeat inv_step H. fin_ev. injection H as <- <- <-.
   do 3 eexists. split; cycle 1.
